@@ -60,6 +60,7 @@ func NewFSJobStorage(path string) *FSResults {
 		file, err := os.Open(j)
 		if err == nil {
 			sData, err := ioutil.ReadAll(file)
+			file.Close()
 			if err == nil {
 				job := Job{}
 				err := json.Unmarshal(sData, &job)
